@@ -25,7 +25,7 @@ def build_case(rng, quick):
     shape = rng.choice([(), (), (2,), (3,), (2, 2)])
     if kind == 'cov' and shape == (2, 2):
         shape = (2,)
-    family = rng.choice(['int', 'dyadic', 'tied', 'mixed'])
+    family = rng.choice(['int', 'dyadic', 'tied', 'mixed', 'narrowint'])
     m = rng.randint(1, 6)
     sizes = [rng.choice([0, 0, 1, 1, 2, 3, 5, 8]) for _ in range(m)]
     chunks = [c05.gen_values(rng, k, shape, family) for k in sizes]
@@ -36,7 +36,8 @@ def build_case(rng, quick):
         i, j = rng.sample(alive, 2)
         order.append((i, j))
         alive.remove(j)
-    return dict(kind=kind, chunks=chunks, order=order, family=family)
+    extra = c05.gen_values(rng, rng.choice([0, 1, 2, 3]), shape, family)
+    return dict(kind=kind, chunks=chunks, order=order, family=family, extra=extra)
 
 
 def program(case):
@@ -51,11 +52,19 @@ def program(case):
                  ['read', 'r%d' % i], ['read', 'r%d' % j]]
     if not case['order']:
         prog.append(['read', 'r0'])
+    # keep using the receiver after the merges: the accumulators merged in must not be affected
+    if case['order'] and case.get('extra'):
+        final = 'r%d' % case['order'][-1][0]
+        for v in case['extra']:
+            prog.append(['push', final, v])
+        prog.append(['read', final])
+        for (i, j) in case['order']:
+            prog.append(['read', 'r%d' % j])
     return prog
 
 
 def scale_of(case):
-    vals = [v for ch in case['chunks'] for v in ch]
+    vals = [v for ch in case['chunks'] for v in ch] + list(case.get('extra') or [])
     if case['kind'] == 'counter' or not vals:
         return Fraction(1)
     mx = max([abs(x) for v in vals for x in acclib.flat(v)[1]] + [Fraction(1)])
@@ -106,6 +115,7 @@ def oracle(ctx, case, impl):
         ovals = vals if kind != 'counter' else [0] * n
         if not c05.oracle_check(ctx, kind, ovals, ri1, case, scale):
             return
+        last_other = getattr(oracle, '_others', None)
         if any(empties) and empties[1]:
             # empty operand merged in: receiver read-outs must be what they were
             for k in ri0:
@@ -113,6 +123,35 @@ def oracle(ctx, case, impl):
                     if ri0[k] != ri1[k]:
                         ctx.fail('merge-empty-not-neutral:' + kind, 'read-out %s changed %s -> %s' % (k, ri0[k], ri1[k]), case)
                         return
+
+
+def oracle_extra(ctx, case, impl):
+    """the part of the history after the merges: more observations into the receiver, then every merged-in accumulator again"""
+    if not (case['order'] and case.get('extra')):
+        return
+    kind = case['kind']
+    k = 5 * len(case['order'])
+    tail = impl[k:]
+    if len(tail) != 1 + len(case['order']):
+        return
+    content = {i: list(ch) for i, ch in enumerate(case['chunks'])}
+    others_after_merge = {}
+    pos = 0
+    for (i, j) in case['order']:
+        others_after_merge[j] = impl[pos + 4]
+        content[i] = content[i] + content[j]
+        pos += 5
+    final = case['order'][-1][0]
+    vals = content[final] + list(case['extra'])
+    scale = scale_of(dict(case, chunks=case['chunks'] + [case['extra']]))
+    ovals = vals if kind != 'counter' else [0] * len(vals)
+    if vals and not isinstance(tail[0], str):
+        c05.oracle_check(ctx, kind, ovals, tail[0], case, scale)
+    for idx, (i, j) in enumerate(case['order']):
+        if tail[1 + idx] != others_after_merge[j]:
+            ctx.fail('merge-aliases-other:' + kind, 'accumulating into the receiver after the merge changed the accumulator that had been '
+                     'merged in (r%d): %s -> %s' % (j, others_after_merge[j], tail[1 + idx]), case)
+            return
 
 
 def snapshot(acc):
@@ -250,6 +289,7 @@ def check(ctx):
                 break
         with ctx.guard(c):
             oracle(ctx, c, impl)
+            oracle_extra(ctx, c, impl)
     refusal_cases(ctx)
 
 
@@ -261,6 +301,7 @@ def replay(ctx, data):
     case['order'] = [tuple(x) for x in case['order']]
     impl, _ = acclib.run_impl(program(case))
     oracle(ctx, case, impl)
+    oracle_extra(ctx, case, impl)
     ctx.case(('replay', case), True, sample=case)
 
 
